@@ -358,7 +358,7 @@ func runShards(bin string, engine, prop, tier string, seed uint64, n int, maxSec
 				args = append(args, "-race")
 			}
 			cmd := exec.Command(bin, args...)
-			cmd.Env = append(os.Environ(), "GOMAXPROCS=1", "GORACE=log_path="+S+"/race-"+tag+" halt_on_error=0 exitcode=0 history_size=4", "VERIF_RACELOG="+S+"/race-"+tag)
+			cmd.Env = append(os.Environ(), "GOMAXPROCS=1", "GORACE=log_path="+S+"/race-"+tag+" halt_on_error=0 exitcode=0 atexit_sleep_ms=0 history_size=4", "VERIF_RACELOG="+S+"/race-"+tag)
 			logf, _ := os.Create(fmt.Sprintf("%s/log-%s.txt", S, tag))
 			cmd.Stderr = logf
 			cmd.Stdout = logf
@@ -697,7 +697,7 @@ func cmdReplay(file string) int {
 	defer cleanup()
 	bin := buildWorker(v.RaceReport != "")
 	out := scratch + "/replay-out.json"
-	o, err := run("", append(os.Environ(), "GOMAXPROCS=1", "GORACE=log_path="+scratch+"/race-replay halt_on_error=0 exitcode=0 history_size=4", "VERIF_RACELOG="+scratch+"/race-replay"), bin, "replay", "-file", file, "-out", out, "-known", verifDir+"/known_findings.json")
+	o, err := run("", append(os.Environ(), "GOMAXPROCS=1", "GORACE=log_path="+scratch+"/race-replay halt_on_error=0 exitcode=0 atexit_sleep_ms=0 history_size=4", "VERIF_RACELOG="+scratch+"/race-replay"), bin, "replay", "-file", file, "-out", out, "-known", verifDir+"/known_findings.json")
 	if err != nil {
 		fatal2("replay worker failed: %v\n%s", err, o)
 	}
